@@ -9,7 +9,7 @@ pub const WS: &[u32] = &[
     0x2007, 0x2008, 0x2009, 0x200A, 0x2028, 0x2029, 0x202F, 0x205F, 0x3000,
 ];
 /// zero-width / space-like code points that are NOT White_Space
-pub const NON_WS_SPACELIKE: &[u32] = &[0x200B, 0x200C, 0x200D, 0x2060, 0xFEFF, 0x180E, 0x1C, 0x1F];
+pub const NON_WS_SPACELIKE: &[u32] = &[0x200B, 0x200C, 0x200D, 0x2060, 0xFEFF, 0x180E, 0x1C, 0x1F, 0x0, 0x7F];
 /// combining marks / extenders
 pub const MARKS: &[u32] = &[0x301, 0x308, 0x20DD, 0xFE0F, 0x1F3FB];
 /// letters of 1–4 UTF-8 bytes
